@@ -252,6 +252,14 @@ func init() {
 		s.results = []Term{T(SInt, "(str.indexof %s %s 0)", s.args[0].S, s.args[1].S)}
 		return true
 	}
+	// IndexRune / IndexByte with a character: first position of that character
+	// (exact for single-byte characters, which is how strings are modelled)
+	idxChar := func(fc *FnCtx, s *CallSite) bool {
+		s.results = []Term{T(SInt, "(str.indexof %s (str.from_code %s) 0)", s.args[0].S, s.args[1].S)}
+		return true
+	}
+	libModels["strings.IndexRune"] = idxChar
+	libModels["strings.IndexByte"] = idxChar
 	libModels["bytes.Equal"] = func(fc *FnCtx, s *CallSite) bool {
 		s.results = []Term{Eq(fc.bstr(s.args[0]), fc.bstr(s.args[1]))}
 		return true
